@@ -32,6 +32,11 @@ class LenaSequence(object):
                 with_static_context.append(el)
 
         self._data_seq = data_seq
+        self._init_context()
+
+    def _init_context(self):
+        """Set static context of the elements of this sequence
+        (as it is without any external context)."""
         # copied from meta.SetContext
         try:
             self._set_context({})
